@@ -443,13 +443,15 @@ class SpecGen:
             return Switch(cases)
         if c == 'matchlist':
             return Pipe(Val([TARGETS[self.style]]),
-                        Match([Or(*([self.failing_alt() for _ in range(rng.randint(0, 1))] + [Auto(self._gen(depth - 1))]))]),
+                        # (in match mode a plain class is an alternative like any other: rejected, it is an attempted branch with its error)
+                        Match([Or(*([rng.choice([self.failing_alt, lambda: rng.choice([int, str, list, float, bool])])() for _ in range(rng.randint(0, 2))]
+                                    + [Auto(self._gen(depth - 1))]))]),
                         Val(TARGETS[self.style]))
         if c == 'matchdict':
             # a Match-mode dict whose key pattern recovers from a rejected alternative; the failure sits in the value spec
             n = self.tag()
             return Pipe(Val({'a': TARGETS[self.style]}),
-                        Match({Or('nope%d' % n, M == 'nope%d' % self.tag(), str): Auto(self._gen(depth - 1))}),
+                        Match({Or(*(['nope%d' % n, M == 'nope%d' % self.tag()] + [rng.choice([int, float, list])] * rng.randint(0, 1) + [str])): Auto(self._gen(depth - 1))}),
                         Val(TARGETS[self.style]))
         if c == 'matchdict-plain-keys':
             # a Match-mode dict with plain string keys, the failure in the value spec of the second key
@@ -666,15 +668,22 @@ def check_message(col, msg, root, target, desc, key, width):
     # shortcut that bypasses the recursion function) must still be listed
     for f in anc:
         alts = f.spec.subspecs if type(f.spec) is Coalesce else f.spec.children if type(f.spec) is Or else None
-        if alts is None or f.outcome != 'raise' or f is not failing:
+        if alts is None or f.outcome != 'raise':
             continue
+        if f is not failing:
+            # an ancestor of the failing spec: the alternatives BEFORE the one the failure lies in were attempted (and rejected)
+            nxt = anc[anc.index(f) + 1] if anc.index(f) + 1 < len(anc) else None
+            pos_in_alts = next((i for i, a_ in enumerate(alts) if nxt is not None and a_ is nxt.spec), None)
+            if pos_in_alts is None:
+                continue
+            alts = alts[:pos_in_alts]
         for sub in alts:
             if any(ch.spec is sub for ch in f.children):
                 continue
             col.count('frameless_alternatives_looked_up')
             if not any(ln.kind == 'Spec' and matches(ln.text, sub) for ln in tokens):
                 return col.violation('C05/attempted-branch-missing:%s' % type(f.spec).__name__,
-                                     '%s: the exhausted %s attempted %s; the trace does not list it\n%s'
+                                     '%s: the %s attempted %s (it left no evaluation level of its own); the trace does not list it\n%s'
                                      % (desc, type(f.spec).__name__, short(fmt_full(sub), 100), msg), wit)
     # (6b) no error line from a recovered (stale) branch
     live_errors = set()
